@@ -190,7 +190,7 @@ fn hom<C: NatCtx>(v: &mut Env<C>, sk: &BigUint, m1: &BigUint, m2: &BigUint, r1: 
 pub fn run<C: NatCtx>(v: &mut Env<C>) {
     let q = v.q.clone();
     if v.small {
-        let limit = if v.h.tier == Tier::Quick { 47u64 } else { 263u64 };
+        let limit = if v.h.tier == Tier::Quick { 47u64 } else { 167u64 };
         if v.p <= big(limit) {
             let qn = q.to_u64_digits()[0];
             v.h.exhaustive_notes.push(format!("{}: all (sk, m, r) in Z_q x [0,q-2] x Z_q", v.tok));
